@@ -1231,6 +1231,24 @@ def check_isolation(kind, spec, obj, via, acc, only=None):
             raise HarnessError('rebuild differs')
 
 
+def copy_equal_and_hash_over_time(kind, spec, obj, via, acc):
+    """check_copy_equal() on a freshly built object, framed by the hash law over time: the hash of
+    an object nobody has looked at yet equals its hash after all the read-only operations of
+    check_copy_equal (dump, copy, ==), and the hash of an untouched twin built from the same spec"""
+    h_fresh, hexc = safe(lambda: hash(obj))
+    usable = check_copy_equal(kind, spec, obj, via, acc)
+    if hexc is None:
+        twin = O.build(spec)
+        h_twin, _ = safe(lambda: hash(twin))
+        h_later, _ = safe(lambda: hash(obj))
+        if h_later != h_fresh or h_twin != h_later:
+            acc.violation(dict(check='hash', kind=kind, what='hash-changes-without-mutation',
+                               when='after-reads' if h_later != h_fresh else 'untouched-twin'),
+                          copy_case(kind, spec, via), 'one hash value',
+                          ['fresh', 'after reads', 'untouched twin', h_fresh == h_later, h_twin == h_later])
+    return usable
+
+
 def structure_key(obj):
     """objects with the same key have the same mutation positions"""
     def skel(d):
@@ -1260,7 +1278,8 @@ def run_copy(kind, tier, part, of, acc):
             with warnings.catch_warnings():
                 warnings.simplefilter('ignore')
                 obj = O.build(e['spec'])
-                if check_copy_equal(kind, e['spec'], obj, via, acc) and full:
+                usable = copy_equal_and_hash_over_time(kind, e['spec'], obj, via, acc)
+                if usable and full:
                     check_isolation(kind, e['spec'], O.build(e['spec']), via, acc)
 
 
@@ -1328,7 +1347,7 @@ def replay(case, tier):
         if 'mutation' in case:
             check_isolation(case['kind'], case['spec'], obj, case['via'], acc, only=case['mutation'])
         else:
-            check_copy_equal(case['kind'], case['spec'], obj, case['via'], acc)
+            copy_equal_and_hash_over_time(case['kind'], case['spec'], obj, case['via'], acc)
     return acc
 
 
